@@ -158,3 +158,88 @@ func (u *Unit) prunedCmds(ncmds, nfacts int, extra string) []string {
 	_ = strings.TrimSpace
 	return out
 }
+
+// relevantFacts: a SInE-style selection of the facts[:nfacts] that are relevant to the text `goal`: a fact is
+// triggered by a symbol if that symbol is among the fact's rarest symbols (within a tolerance); selection starts from
+// the goal's symbols and follows triggers for `depth` rounds. Dropping hypotheses is sound for `unsat` answers.
+func (u *Unit) relevantFacts(ncmds, nfacts int, goal string, depth int, tol float64) []int {
+	p := u.pruneIdx()
+	p.mu.Lock()
+	defer p.mu.Unlock()
+	if len(p.infos) < ncmds || len(p.factRefs) < nfacts {
+		p.extend(u, len(u.cmds), len(u.facts))
+	}
+	freq := map[int]int{}
+	for i := 0; i < nfacts; i++ {
+		for _, r := range p.factRefs[i] {
+			freq[r]++
+		}
+	}
+	// trigger symbols of each fact
+	trig := make([][]int, nfacts)
+	for i := 0; i < nfacts; i++ {
+		min := 1 << 30
+		for _, r := range p.factRefs[i] {
+			if freq[r] < min {
+				min = freq[r]
+			}
+		}
+		for _, r := range p.factRefs[i] {
+			if float64(freq[r]) <= tol*float64(min) {
+				trig[i] = append(trig[i], r)
+			}
+		}
+	}
+	have := map[int]bool{}
+	var expand func(r int, d int)
+	expand = func(r int, d int) {
+		// a defined symbol brings the symbols of its definition with it
+		if have[r] || d > 6 {
+			return
+		}
+		have[r] = true
+		if r < len(p.infos) && strings.HasPrefix(u.cmds[r], "(define-fun") {
+			for _, q := range p.infos[r].refs {
+				expand(q, d+1)
+			}
+		}
+	}
+	for _, r := range p.refsOf(goal, -1) {
+		expand(r, 0)
+	}
+	sel := make([]bool, nfacts)
+	for round := 0; round < depth; round++ {
+		var added []int
+		for i := 0; i < nfacts; i++ {
+			if sel[i] {
+				continue
+			}
+			if len(p.factRefs[i]) == 0 {
+				sel[i] = true // ground facts about prelude symbols only (cheap)
+				continue
+			}
+			for _, t := range trig[i] {
+				if have[t] {
+					sel[i] = true
+					added = append(added, i)
+					break
+				}
+			}
+		}
+		if len(added) == 0 {
+			break
+		}
+		for _, i := range added {
+			for _, r := range p.factRefs[i] {
+				expand(r, 0)
+			}
+		}
+	}
+	var out []int
+	for i := 0; i < nfacts; i++ {
+		if sel[i] {
+			out = append(out, i)
+		}
+	}
+	return out
+}
